@@ -46,7 +46,7 @@ Extraction "model.ml"
   o_range_proof o_verify_range_proof o_blind_output o_blind_issuance_amount o_unblind_with_key
   o_unblind_with_nonce o_unblind_issuance o_last_value_range_proof o_gen_run
   B32.decode B32.decode_generic B32.encode B32.convert_bits B32.to_upper B32.BLECH32 B32.BLECH32M
-  compute_entropy compute_asset compute_token new_from_input new_tx_issuance contract_json
+  compute_entropy compute_asset compute_token new_from_input new_tx_issuance contract_json wf_contract
   v0_add_issuance v0_add_reissuance v2_add_in_issuance v2_add_in_reissuance
   get_issuance_asset_hash get_issuance_keys_hash unsigned_issuance extract_issuance unsigned_pegin extract_pegin unsigned_output expected_issuance
   XC.check_encode XC.check_decode XC.bech_decode XC.bech_encode
